@@ -12,6 +12,14 @@ CLAIMED = {
   "the executable spec the theorems are about on an exhaustive boundary lattice x 24 operators plus random operands.",
   "Trusted: Lean kernel; the translator; hardware float + - * / (taken from Lean Float in the oracle); pow/libm unchecked. "
   "See DESIGN.md section 5 and 6 (C02).", "6/C02"),
+ "C14": ("proof",
+  "Lean 4 simulation theorem: pooled register allocation refines plain allocation (Model.Pools) + model-vs-real-pool correspondence via hook + trace equality across all build tag sets",
+  "Props/C14.lean proves for every client program of any length that the register pool returns zeroed sets of the exact size and is "
+  "observationally equivalent to plain allocation; Model.Pools is run op-by-op against the real valuePool (identities, lengths, contents) "
+  "through a verif hook; the same harness is built under {default, noregpool, nocontpool, noregpool+nocontpool, noquotas, safepool} and "
+  "host-visible traces of pool-stressing templates and generated programs must be identical.",
+  "That the VM releases a register set/continuation only when nothing references it is VM discipline: reached by the cross-build trace "
+  "equality (testing), not by the theorem. Continuation pools and the luagc pool variants are covered by correspondence only.", "6/C14"),
 }
 
 NOT_YET = "machinery for this property is not built yet in this revision (see DESIGN.md section 9 build order); not claimed"
